@@ -233,6 +233,20 @@ def rebreak(text, rng, p=0.3):
     return "\n".join(out)
 
 
+def drop_terminators(text, rng, p=0.45):
+    """the ';' of one-line statements taken away where the next line starts a statement (CREATE / ALTER / DROP / SET plus more text): such a
+    statement is closed by the start of the next one.  Done to the BASE text, so that every re-broken variant has the same statements."""
+    lines = text.split("\n")
+    out = []
+    for i, line in enumerate(lines):
+        nxt = lines[i + 1] if i + 1 < len(lines) else ""
+        if (STMT_HEAD.match(line) and line.rstrip().endswith(";") and not any(m in line for m in ("--", "/*", "*/", "#")) and not line.count("'") % 2
+                and not line.count('"') % 2 and line.count("(") == line.count(")") and re.match(r"(CREATE|ALTER|DROP|SET)[ ]+\S", nxt, re.I) and rng.random() < p):
+            line = line.rstrip()[:-1].rstrip()
+        out.append(line)
+    return "\n".join(out)
+
+
 def run_shard(ctx):
     rng = ctx.rng
     nvar = 8 if ctx.tier == "quick" else 10
@@ -241,6 +255,11 @@ def run_shard(ctx):
     from vf.gen import sources
     for j in range(ctx.budget(260, 6000)):
         text = GS.gen_mixed(rng)["text"] if j % 2 else sources.any_script(rng)[1]
+        if j % 3 == 0:
+            t2 = drop_terminators(text, rng)
+            if t2 != text:
+                text = t2
+                ctx.obs["scripts_with_statements_closed_by_the_next_one"] += 1
         for q in range(2):
             var = rebreak(text, rng, p=[0.25, 0.6][q])
             if var != text:
